@@ -34,14 +34,50 @@ COMMON = [
     (r'^self\._cleaned_up = True$', 'SetCleaned'),
     (r'^return$', 'Return'),
     (r'^pass$', 'Nop'),
+    # remote backend (_run_backend): prelude
+    (r'^signal\.signal\(signal\.SIGTERM, signal\.SIG_DFL\)$', 'Nop'),
+    (r'^set_linger\(self\._socket, True, 5\)$', 'Nop'),
+    (r'^self\._(is_backend|host|payload) = ', 'Nop'),
+    (r'^self\._aux_socket_my, self\._aux_socket_ctrl = ', 'Nop'),
+    (r'^self\._ctrl_thread_loc = threading\.Thread\(', 'Nop'),
+    (r'^self\._ctrl_thread_loc\.start\(\)$', 'StartCtrl'),
+    (r'^main_module = types\.ModuleType\(', 'Nop'),
+    (r'^main_content = runpy\.run_path\(', 'Nop'),
+    (r'^main_module\.__dict__\.update\(main_content\)$', 'Nop'),
+    (r"^sys\.modules\['__main__'\] = sys\.modules\['__new_main__'\] = main_module$", 'Nop'),
+    (r'^self\._target, self\._args, self\._kwargs = remote_pickle\.loads\(self\._payload\)$', 'Nop'),
+    # remote backend: the start-up exchange with the server process, the local variable `result`, the data socket
+    (r'^self\._comms\.child_end\.send\(\(self\._host, self\._pid, self\._tid, self\._ident\)\)$', 'SendInfo'),
+    (r'^unused_sync = self\._comms\.child_end\.recv\(\)$', 'RecvSync'),
+    (r'^result = None$', 'VarNone'),
+    (r'^result = \(True, result\)$', 'VarOk'),
+    (r'^result = \(False, e\)$', 'VarErr'),
+    (r'^result = \(False, None\)$', 'VarErrNone'),
+    (r'^self\._ctrl_thread_loc\.join\(\)$', 'JoinCtrl'),
+    (r"^send_msg\(self\._socket, result, 'data: result'\)$", 'SockSendVar'),
+    (r"^send_msg\(self\._socket, self\._user_state, 'data: user state'\)$", 'SockSendState'),
+    (r'^self\._socket\.shutdown\(socket\.SHUT_WR\)$', 'SockShut'),
+    (r'^self\._socket\.close\(\)$', 'SockClose'),
+    (r'^self\._aux_socket_my\.close\(\)$', 'Nop'),
+    # persistent remote _cleanup: the end-of-stream marker goes through the data socket
+    (r'^send_msg\(self\._socket, \(self\._counter, False, None, self\.id\)\)$', 'PutEndSock'),
 ]
 CONDS = [
     (r'^self\._set_names$', 'CSetNames'),
     (r'^self\._ctrl_thread\.is_alive\(\) and \(?not self\._terminate_req\)?$', 'CCtrlAliveNotTerm'),
     (r'^self\._cleaned_up$', 'CCleaned'),
     (r"^hasattr\(self\._results_pipe\.child_end, 'close'\)$", 'CHasClose'),
+    # remote backend; conditions with a fixed value in the runs the model covers (Linux, constructor defaults)
+    (r'^self\._reset_sigterm_hnd$', 'CFalse'),
+    (r'^is_windows\(\)$', 'CFalse'),
+    (r'^is_windows\(\) and self\._aux_socket_my is not None$', 'CFalse'),
+    (r'^self\._main_path$', 'CFalse'),
+    (r"^not hasattr\(self, '_target'\)$", 'CTrue'),
+    (r'^self\._ctrl_thread_loc\.is_alive\(\)$', 'CCtrlAlive'),
+    (r"^hasattr\(self, '_ctrl_thread_loc'\) and self\._ctrl_thread_loc\.is_alive\(\)$", 'CCtrlAlive'),
+    (r'^result is None$', 'CVarNone'),
 ]
-EXC = {'Exception': 'XException', 'BaseException': 'XBaseException'}
+EXC = {'Exception': 'XException', 'BaseException': 'XBaseException', 'ConnectionClosedError': 'XConnClosed'}
 
 
 def is_log(s):
@@ -87,7 +123,7 @@ class Skel:
                     names = [h.type] if not isinstance(h.type, ast.Tuple) else h.type.elts
                     cls = []
                     for n in names:
-                        nm = ast.unparse(n)
+                        nm = 'BaseException' if n is None else ast.unparse(n)     # a bare `except:` catches everything
                         if nm not in EXC:
                             raise Unsupported(f'handler class {nm} (line {h.lineno})')
                         cls.append(EXC[nm])
@@ -111,7 +147,9 @@ class Skel:
 TARGETS = [('thread_run', 'thread.py', 'ThreadWorker', '_run'),
            ('process_run', 'process.py', 'ProcessWorker', '_run'),
            ('pthread_cleanup', 'persistent_thread.py', 'PersistentThreadWorker', '_cleanup'),
-           ('pprocess_cleanup', 'persistent_process.py', 'PersistentProcessWorker', '_cleanup')]
+           ('pprocess_cleanup', 'persistent_process.py', 'PersistentProcessWorker', '_cleanup'),
+           ('remote_backend', 'remote.py', 'RemoteWorker', '_run_backend'),
+           ('premote_cleanup', 'persistent_remote.py', 'PersistentRemoteWorker', '_cleanup')]
 
 
 def skeletons(repo):
@@ -127,7 +165,7 @@ def skeletons(repo):
 
 def generate(repo):
     sks = skeletons(repo)
-    lines = ['(* GENERATED by tools/py2coq/gen_skel.py from pyworkers/{thread,process,persistent_thread,persistent_process}.py - do not edit *)',
+    lines = ['(* GENERATED by tools/py2coq/gen_skel.py from pyworkers/{thread,process,remote,persistent_thread,persistent_process,persistent_remote}.py - do not edit *)',
              'From PW Require Import Child.Skel.', '']
     for name, (term, _, fn, ln) in sks.items():
         lines.append(f'(* {fn}:{ln} *)')
